@@ -36,6 +36,38 @@ DIRECTED_ENUM = ('enum DE { DE_A = 0, DE_B = 1 };\nunion DU { 0: u8 a; 1: u32 b;
 DIRECTED_ALIGN = ('struct DA { u8 n; u8 x<@n>; u32 y; };\nstruct DB { bytes a<>; u32 b; };\nstruct DC { u16 a; u64 b; };\n', 'dalign', None)
 
 
+DIRECTED_NAMES = ('enum DEnd { little = 0, big = 1, middle = 5 };\nstruct DEndS { DEnd e; DEnd f[3]; };\n'
+                  'struct DCnt { u32 decode; u8 a<@decode>; u16 copy_from; bytes b<@copy_from>; u8 z; };\n', 'dnames', None)
+
+
+def captured_enumerator(tree):
+    """an enumerator named like a name the generated printer finds first (prophy::native / little / big of endianness.hpp): finding D114"""
+    if tree['k'] == 'enum':
+        return any(n in ('native', 'little', 'big') for n, _ in tree['es'])
+    if tree['k'] == 'struct':
+        return any(captured_enumerator(m['t']) for m in tree['ms'])
+    if tree['k'] == 'union':
+        return any(captured_enumerator(a['t']) for a in tree['arms'])
+    return False
+
+
+def zero_filled_enum_array(tree):
+    """a fixed array of an enum without an enumerator 0: the generated constructor value-initialises it to 0 (finding D115)"""
+    if tree['k'] == 'struct':
+        return any((m['mk'] == 'fixed' and m['t']['k'] == 'enum' and all(v != 0 for _, v in m['t']['es'])) or zero_filled_enum_array(m['t']) for m in tree['ms'])
+    if tree['k'] == 'union':
+        return bool(tree['arms']) and zero_filled_enum_array(tree['arms'][0]['t'])
+    return False
+
+
+def classify_c18(case, detail):
+    if detail.get('captured_enumerator'):
+        return 'D114'
+    if case.get('built') == 'default-constructed in both languages' and detail.get('zero_filled_enum_array'):
+        return 'D115'
+    return None
+
+
 def classify_directed(case, detail):
     """D61: a corrupted enum / discriminator value is loaded into a C++ enum that cannot represent it (UBSan -fsanitize=enum);
     D62: the codec pads by rounding absolute addresses: buffers that do not start on an aligned address"""
@@ -469,11 +501,14 @@ def run_c18(tier):
                 'real Python message vs print() of the real C++ object decoded from the same canonical bytes; non-trivial = value with a bytes '
                 'field followed by another field, or a nested composite.')
     chk.lean = core.lean_obligations('C18', thorough=(tier == 'thorough'))
-    corpus = CppCorpus(chk, chk.scale(5, 40), gen_kwargs=dict(floats=False))
+    corpus = CppCorpus(chk, chk.scale(5, 40), gen_kwargs=dict(floats=False), extra=[DIRECTED_NAMES])
     try:
         corpus.report_build_errors()
         tr = traits(corpus)
         cases = [(c, v) for c, v in gen_cases(chk, corpus, chk.scale(5, 10)) if not has_float(c.tree) and single_quote_repr(v)]
+        for c in corpus.types:
+            if c.directed == 'dnames':      # names that collide with names of the runtime / the generated code
+                cases += [(c, v) for v in [V.default_value(c.tree)] + [V.gen_value(chk.rng, c.tree, max_len=3) for _ in range(4)] if single_quote_repr(v)]
         reqs = corpus.deft_requests()
         nd = len(reqs)
         for c, v in cases:
@@ -499,20 +534,40 @@ def run_c18(tier):
                 chk.bump('decode-rejected (see C03)')
                 continue
             cpp_text = o['print'].encode('latin-1', 'replace').decode('latin-1')
+            captured = captured_enumerator(c.tree)
             if py_text != cpp_text:
-                chk.property_violation(casej, {'what': 'str() in Python and print() in C++ differ', 'python': py_text, 'cpp': cpp_text})
+                chk.property_violation(casej, {'what': 'str() in Python and print() in C++ differ', 'python': py_text, 'cpp': cpp_text,
+                                               'captured_enumerator': captured}, classify_c18)
             if v == V.default_value(c.tree):
                 # the freshly constructed message, nothing assigned, renders like the message holding the default values
                 fresh = str(c.cls())
                 chk.bump('fresh-message')
                 if fresh != cpp_text:
                     chk.property_violation(dict(casej, built='fresh message, no field assigned'),
-                                           {'what': 'str() of a fresh message and print() of the same message in C++ differ', 'python': fresh, 'cpp': cpp_text})
+                                           {'what': 'str() of a fresh message and print() of the same message in C++ differ', 'python': fresh, 'cpp': cpp_text,
+                                            'captured_enumerator': captured}, classify_c18)
+            if captured:
+                chk.bump('D114: enumerator captured by a name of the C++ runtime - print() not compared with the model')
+                continue
             chk.corr_compared += 2
             if ans[3 * i + 1]['text'] != py_text:
                 chk.correspondence_mismatch('Text.pyText = str(message)', casej, py_text, ans[3 * i + 1]['text'])
             if ans[3 * i + 2]['text'] != cpp_text:
                 chk.correspondence_mismatch('Text.cppText = message.print()', casej, cpp_text, ans[3 * i + 2]['text'])
+        # the default-constructed message in both languages (no bytes in between)
+        plain = [c for c in corpus.types if not has_float(c.tree) and not captured_enumerator(c.tree)]
+        fresh = corpus.run([(c, {'op': 'decode', 'e': 'little', 'data': '', 'fresh': True}) for c in plain])
+        for c, o in zip(plain, fresh):
+            casej = {'schema': c.text, 'type': c.name, 'built': 'default-constructed in both languages', 'tid': c.tid}
+            chk.count((c.tree, 'fresh'), True)
+            chk.bump('default-constructed')
+            if o.get('fault') or 'print' not in o:
+                chk.property_violation(casej, {'what': 'printing the default-constructed C++ message failed', 'cpp': {k: o.get(k) for k in ('fault', 'exception', 'ok')}}, d4(tr))
+                continue
+            py_text, cpp_text = str(c.cls()), o['print'].encode('latin-1', 'replace').decode('latin-1')
+            if py_text != cpp_text:
+                chk.property_violation(casej, {'what': 'str() of the default Python message and print() of the default C++ message differ', 'python': py_text,
+                                               'cpp': cpp_text, 'zero_filled_enum_array': zero_filled_enum_array(c.tree)}, classify_c18)
     finally:
         corpus.close()
     return chk.finish()
